@@ -241,6 +241,34 @@ macro_rules! check_coll {
 }
 
 impl Mod {
+    /// the mutable iterators must yield exactly what the shared ones yield
+    fn check_iter_mut(&mut self) -> R {
+        macro_rules! same {
+            ($name:expr, $shared:expr, $mutable:expr) => {{
+                let a: Vec<usize> = $shared;
+                let b: Vec<usize> = $mutable;
+                if a != b {
+                    return fail("iter_is_live_in_creation_order", format!("{}: iter_mut yields items #{:?} but iter yields #{:?}", $name, b, a));
+                }
+            }};
+        }
+        same!("funcs", self.m.funcs.iter().map(|f| f.id().index()).collect(), self.m.funcs.iter_mut().map(|f| f.id().index()).collect());
+        same!("funcs(local)", self.m.funcs.iter_local().map(|(id, _)| id.index()).collect(), self.m.funcs.iter_local_mut().map(|(id, _)| id.index()).collect());
+        same!("memories", self.m.memories.iter().map(|f| f.id().index()).collect(), self.m.memories.iter_mut().map(|f| f.id().index()).collect());
+        same!("tables", self.m.tables.iter().map(|f| f.id().index()).collect(), self.m.tables.iter_mut().map(|f| f.id().index()).collect());
+        same!("elements", self.m.elements.iter().map(|f| f.id().index()).collect(), self.m.elements.iter_mut().map(|f| f.id().index()).collect());
+        same!("exports", self.m.exports.iter().map(|f| f.id().index()).collect(), self.m.exports.iter_mut().map(|f| f.id().index()).collect());
+        same!("imports", self.m.imports.iter().map(|f| f.id().index()).collect(), self.m.imports.iter_mut().map(|f| f.id().index()).collect());
+        {
+            let a: Vec<String> = self.m.customs.iter().map(|(_, s)| s.name().to_string()).collect();
+            let b: Vec<String> = self.m.customs.iter_mut().map(|(_, s)| s.name().to_string()).collect();
+            if a != b {
+                return fail("iter_is_live_in_creation_order", format!("customs: iter_mut yields {:?} but iter yields {:?}", b, a));
+            }
+        }
+        Ok(())
+    }
+
     fn check_all(&self) -> R {
         self.check_types()?;
         let m = &self.m;
@@ -696,8 +724,8 @@ pub fn run(ops: &[COp], n_modules: u8, initial_burn: u32) -> CollReport {
         };
         // the invariants, after every step, on every module (a refused operation must have changed nothing)
         let r = r.and_then(|()| {
-            for (k, md) in mods.iter().enumerate() {
-                match catch_unwind(AssertUnwindSafe(|| md.check_all())) {
+            for (k, md) in mods.iter_mut().enumerate() {
+                match catch_unwind(AssertUnwindSafe(|| md.check_all().and_then(|()| md.check_iter_mut()))) {
                     Ok(Ok(())) => {}
                     Ok(Err(mut f)) => {
                         f.detail = format!("module {}: {}", k, f.detail);
